@@ -29,22 +29,225 @@ Qed.
 Section Loop.
   Variable handle : hconn -> list byte -> hconn * N.
   Variable on_end : hconn -> hconn.
+  Hypothesis handle_final : forall h l, snd (handle h l) <> NNG_EAGAIN.
 
   Lemma loop_rest : forall f h buf h1 rv r, (length buf < f)%nat ->
     parse_loop handle on_end f h buf = (h1, rv, r) ->
-    (exists pre, buf = pre ++ r) /\ (rv = NNG_EAGAIN -> ~ In 10 r).
+    (exists pre, buf = pre ++ r) /\ (rv = NNG_EAGAIN -> http_scan_line r = SAgain).
   Proof.
     induction f as [|f IH]; intros h buf h1 rv r Hf H; [lia|].
     cbn [parse_loop] in H. destruct (http_scan_line buf) as [| |line rest] eqn:E.
-    - inversion H; subst. split; [exists []; reflexivity|]. intros _. exact (scan_again_no_lf _ _ _ E).
+    - inversion H; subst. split; [exists []; reflexivity|]. intros _. exact E.
     - inversion H; subst. split; [exists []; reflexivity|discriminate].
     - destruct (scan_line_suffix _ _ _ _ _ E) as [pre Hp].
       pose proof (scan_from_shorter _ _ _ _ _ E) as L.
       destruct line as [|x line].
       + inversion H; subst. split; [exists pre; reflexivity|discriminate].
-      + destruct (handle h (x :: line)) as [h2 rv2] eqn:Hh. destruct (rv2 =? 0) eqn:Z.
+      + pose proof (handle_final h (x :: line)) as HF.
+        destruct (handle h (x :: line)) as [h2 rv2] eqn:Hh. cbn [snd] in HF. destruct (rv2 =? 0) eqn:Z.
         * destruct (IH h2 rest h1 rv r ltac:(lia) H) as [[pre2 P2] N2].
           split; [exists (pre ++ pre2); rewrite <- app_assoc, <- P2; exact Hp|exact N2].
-        * inversion H; subst. split; [exists pre; reflexivity|].
-          intros X. subst rv. Abort.
+        * inversion H; subst. split; [exists pre; reflexivity|]. intros X. congruence.
+  Qed.
+
+  Lemma loop_pending : forall f h buf, http_scan_line buf = SAgain ->
+    parse_loop handle on_end (S f) h buf = (h, NNG_EAGAIN, buf).
+  Proof. intros f h buf E. cbn [parse_loop]. rewrite E. reflexivity. Qed.
 End Loop.
+
+Lemma head_parse_rest keep strict isreq h buf h1 rv r :
+  head_parse keep strict isreq h buf = (h1, rv, r) ->
+  (exists pre, buf = pre ++ r) /\ (rv = NNG_EAGAIN -> http_scan_line r = SAgain).
+Proof.
+  unfold head_parse, req_parse, res_parse. destruct isreq; intros H.
+  - eapply loop_rest; [apply handle_req_final| |exact H]. lia.
+  - eapply loop_rest; [apply handle_res_final| |exact H]. lia.
+Qed.
+
+Lemma head_parse_pending keep strict isreq h buf : http_scan_line buf = SAgain ->
+  head_parse keep strict isreq h buf = (h, NNG_EAGAIN, buf).
+Proof. intros E. unfold head_parse, req_parse, res_parse. destruct isreq; apply loop_pending; exact E. Qed.
+
+(* ---- simulation of the bounded reader by the unbounded one ---- *)
+(* [seen]: the bytes read so far.  While not finished, the bounded and the
+   unbounded reader hold the same connection state and the same pending bytes:
+   an incomplete line at the front of the buffer, the tail of what was read,
+   shorter than the buffer. *)
+Definition sim (bufsz : nat) (r : rdconn) (u : hfeed) (seen : list byte) : Prop :=
+  rd_done r = hf_done u /\ rd_conn r = hf_conn u /\
+  (rd_done r = false ->
+     rd_data r = hf_buf u /\ (exists pre, seen = pre ++ rd_data r) /\
+     http_scan_line (rd_data r) = SAgain /\ rd_get r = 0%nat /\ (length (rd_data r) < bufsz)%nat).
+
+Lemma rd_step_sim keep strict isreq bufsz total seen future r u c :
+  lines_fit bufsz total -> total = seen ++ c ++ future -> sim bufsz r u seen -> rd_done r = false ->
+  let '(r1, e1) := rd_step true keep strict isreq bufsz r c in
+  let '(u1, e2) := http_feed keep strict isreq u c in
+  e1 = e2 /\ sim bufsz r1 u1 (seen ++ c).
+Proof.
+  intros Hfit Htot (Hd & Hc & Hdata) Hnd. destruct (Hdata Hnd) as (Hb & [pre Hs] & _).
+  unfold rd_step, http_feed. rewrite <- Hd, Hnd, <- Hc, <- Hb.
+  destruct (head_parse keep strict isreq (rd_conn r) (rd_data r ++ c)) as [[h1 rv] rest] eqn:P.
+  destruct (head_parse_rest _ _ _ _ _ _ _ _ P) as [[pre2 Hp2] Hlf].
+  destruct (rv =? NNG_EAGAIN) eqn:E.
+  - apply N.eqb_eq in E.
+    assert (Lt: (length rest < bufsz)%nat).
+    { apply (Hfit (pre ++ pre2) rest future); [|apply (scan_again_no_lf rest 0 []); apply Hlf; exact E].
+      rewrite Htot, Hs, <- !app_assoc. f_equal. rewrite (app_assoc (rd_data r) c future), Hp2, <- app_assoc. reflexivity. }
+    replace (length rest =? bufsz)%nat with false by (symmetry; apply Nat.eqb_neq; lia).
+    assert (S1: sim bufsz (mkRD h1 0 rest false) (mkHF h1 rest false) (seen ++ c)).
+    { unfold sim. cbn. repeat split; auto. exists (pre ++ pre2).
+      rewrite Hs, <- !app_assoc. f_equal. exact Hp2. }
+    destruct isreq; (split; [reflexivity|exact S1]).
+  - split; [reflexivity|]. unfold sim. cbn. repeat split; auto; discriminate.
+Qed.
+
+
+Lemma http_feed_nil_sim keep strict isreq bufsz r u seen : sim bufsz r u seen ->
+  let '(u1, e) := http_feed keep strict isreq u [] in e = [] /\ sim bufsz r u1 seen.
+Proof.
+  intros (Hd & Hc & Hdata). unfold http_feed. destruct (hf_done u) eqn:D.
+  - split; [reflexivity|]. unfold sim. cbn. rewrite Hd. repeat split; auto; try discriminate; try (intros X; discriminate X).
+  - destruct (Hdata Hd) as (Hb & Hp & Hs & Hg & Hl).
+    rewrite app_nil_r, <- Hb, <- Hc, (head_parse_pending keep strict isreq _ _ Hs).
+    cbn [N.eqb Pos.eqb NNG_EAGAIN]. split; [reflexivity|].
+    unfold sim. cbn. rewrite Hd. repeat split; auto.
+Qed.
+
+Lemma rd_feed_piece_S f keep strict isreq bufsz r piece : rd_done r = false -> piece <> [] ->
+  rd_feed_piece (S f) true keep strict isreq bufsz r piece =
+    let k := Nat.min (bufsz - rd_put r) (length piece) in
+    let '(r1, e1) := rd_step true keep strict isreq bufsz r (firstn k piece) in
+    let '(r2, e2) := rd_feed_piece f true keep strict isreq bufsz r1 (skipn k piece) in
+    (r2, e1 ++ e2).
+Proof. intros D N. cbn [rd_feed_piece]. rewrite D. destruct piece; [congruence|reflexivity]. Qed.
+
+Lemma rd_piece_sim keep strict isreq bufsz total : lines_fit bufsz total ->
+  forall fuel piece seen future r u,
+  total = seen ++ piece ++ future -> sim bufsz r u seen -> (length piece < fuel)%nat ->
+  let '(r1, e1) := rd_feed_piece fuel true keep strict isreq bufsz r piece in
+  let '(u1, e2) := http_feed keep strict isreq u piece in
+  e1 = e2 /\ sim bufsz r1 u1 (seen ++ piece).
+Proof.
+  intros Hfit. induction fuel as [|f IH]; intros piece seen future r u Htot Hsim Hf; [lia|].
+  destruct (rd_done r) eqn:D.
+  - (* finished: nothing is read any more *)
+    cbn [rd_feed_piece]. rewrite D.
+    destruct Hsim as (Hd & Hc & Hdata). unfold http_feed. rewrite <- Hd, D.
+    split; [reflexivity|]. unfold sim. cbn. rewrite D. repeat split; auto; try discriminate; try (intros X; discriminate X).
+  - destruct (Nat.eq_dec (length piece) 0) as [Z|NZ].
+    + apply length_zero_iff_nil in Z. subst piece. cbn [rd_feed_piece]. rewrite D.
+      pose proof (http_feed_nil_sim keep strict isreq bufsz r u seen Hsim) as N.
+      destruct (http_feed keep strict isreq u []) as [u1 e]. destruct N as [-> S1].
+      rewrite app_nil_r. auto.
+    + assert (NE: piece <> []) by (intros ->; apply NZ; reflexivity).
+      rewrite (rd_feed_piece_S f keep strict isreq bufsz r piece D NE). cbv zeta.
+      set (k := Nat.min (bufsz - rd_put r) (length piece)).
+      assert (Hk: (1 <= k <= length piece)%nat).
+      { destruct Hsim as (_ & _ & Hdata). destruct (Hdata D) as (_ & _ & _ & Hg & Hl).
+        unfold k, rd_put. rewrite Hg. lia. }
+      replace (http_feed keep strict isreq u piece) with (http_feed keep strict isreq u (firstn k piece ++ skipn k piece))
+        by (rewrite firstn_skipn; reflexivity).
+      rewrite http_feed_app.
+      assert (Htot2: total = seen ++ firstn k piece ++ (skipn k piece ++ future)).
+      { rewrite Htot. f_equal. rewrite app_assoc, firstn_skipn. reflexivity. }
+      pose proof (rd_step_sim keep strict isreq bufsz total seen (skipn k piece ++ future) r u (firstn k piece)
+                    Hfit Htot2 Hsim D) as ST.
+      destruct (rd_step true keep strict isreq bufsz r (firstn k piece)) as [r1 e1].
+      destruct (http_feed keep strict isreq u (firstn k piece)) as [u1 e1'].
+      destruct ST as [-> S1].
+      assert (Htot3: total = (seen ++ firstn k piece) ++ skipn k piece ++ future).
+      { rewrite Htot2, <- app_assoc. reflexivity. }
+      assert (L: (length (skipn k piece) < f)%nat) by (rewrite skipn_length; lia).
+      pose proof (IH (skipn k piece) (seen ++ firstn k piece) future r1 u1 Htot3 S1 L) as ST2.
+      destruct (rd_feed_piece f true keep strict isreq bufsz r1 (skipn k piece)) as [r2 e2].
+      destruct (http_feed keep strict isreq u1 (skipn k piece)) as [u2 e2'].
+      destruct ST2 as [-> S2]. split; [reflexivity|].
+      rewrite <- app_assoc, firstn_skipn in S2. exact S2.
+Qed.
+
+Lemma rd_all_sim keep strict isreq bufsz total : lines_fit bufsz total ->
+  forall pieces seen future r u,
+  total = seen ++ concat pieces ++ future -> sim bufsz r u seen ->
+  let '(r1, e1) := rd_feed_all true keep strict isreq bufsz r pieces in
+  let '(u1, e2) := http_feed keep strict isreq u (concat pieces) in
+  e1 = e2 /\ sim bufsz r1 u1 (seen ++ concat pieces).
+Proof.
+  intros Hfit. induction pieces as [|p ps IH]; intros seen future r u Htot Hsim.
+  - cbn [rd_feed_all concat]. pose proof (http_feed_nil_sim keep strict isreq bufsz r u seen Hsim) as N.
+    destruct (http_feed keep strict isreq u []) as [u1 e]. destruct N as [-> S1]. rewrite app_nil_r. auto.
+  - cbn [rd_feed_all concat]. rewrite http_feed_app.
+    assert (Htot2: total = seen ++ p ++ (concat ps ++ future)).
+    { rewrite Htot. cbn [concat]. rewrite <- app_assoc. reflexivity. }
+    pose proof (rd_piece_sim keep strict isreq bufsz total Hfit (S (length p)) p seen (concat ps ++ future) r u
+                  Htot2 Hsim (Nat.lt_succ_diag_r _)) as ST.
+    destruct (rd_feed_piece (S (length p)) true keep strict isreq bufsz r p) as [r1 e1].
+    destruct (http_feed keep strict isreq u p) as [u1 e1'].
+    destruct ST as [-> S1].
+    assert (Htot3: total = (seen ++ p) ++ concat ps ++ future) by (rewrite Htot2, <- app_assoc; reflexivity).
+    pose proof (IH (seen ++ p) future r1 u1 Htot3 S1) as ST2.
+    destruct (rd_feed_all true keep strict isreq bufsz r1 ps) as [r2 e2].
+    destruct (http_feed keep strict isreq u1 (concat ps)) as [u2 e2'].
+    destruct ST2 as [-> S2]. split; [reflexivity|]. rewrite <- app_assoc in S2. exact S2.
+Qed.
+
+(* the buffer is transparent: a stream whose lines fit is parsed, through the
+   bounded buffer and in whatever pieces it arrives, exactly as the unbounded
+   parser parses the whole stream at once *)
+Theorem rd_buffer_transparent keep strict isreq bufsz pieces : (0 < bufsz)%nat ->
+  lines_fit bufsz (concat pieces) ->
+  let '(r, e1) := rd_feed_all true keep strict isreq bufsz rd_init pieces in
+  let '(u, e2) := http_feed keep strict isreq hfeed_init (concat pieces) in
+  e1 = e2 /\ rd_conn r = hf_conn u /\ rd_done r = hf_done u.
+Proof.
+  intros Hb Hfit.
+  assert (S0: sim bufsz rd_init hfeed_init []).
+  { unfold sim, rd_init, hfeed_init. cbn. repeat split; auto. exists []. reflexivity. }
+  pose proof (rd_all_sim keep strict isreq bufsz (concat pieces) Hfit pieces [] [] rd_init hfeed_init
+                ltac:(cbn [app]; rewrite app_nil_r; reflexivity) S0) as ST.
+  destruct (rd_feed_all true keep strict isreq bufsz rd_init pieces) as [r e1].
+  destruct (http_feed keep strict isreq hfeed_init (concat pieces)) as [u e2].
+  destruct ST as [-> (A & B & _)]. auto.
+Qed.
+
+(* hence: two ways of cutting the same stream give the same events and the same connection state *)
+Corollary rd_segmentation_independent keep strict isreq bufsz p1 p2 : (0 < bufsz)%nat ->
+  concat p1 = concat p2 -> lines_fit bufsz (concat p1) ->
+  snd (rd_feed_all true keep strict isreq bufsz rd_init p1) = snd (rd_feed_all true keep strict isreq bufsz rd_init p2) /\
+  rd_conn (fst (rd_feed_all true keep strict isreq bufsz rd_init p1)) =
+  rd_conn (fst (rd_feed_all true keep strict isreq bufsz rd_init p2)).
+Proof.
+  intros Hb Hc Hfit.
+  pose proof (rd_buffer_transparent keep strict isreq bufsz p1 Hb Hfit) as T1.
+  rewrite Hc in Hfit.
+  pose proof (rd_buffer_transparent keep strict isreq bufsz p2 Hb Hfit) as T2.
+  rewrite Hc in T1.
+  destruct (rd_feed_all true keep strict isreq bufsz rd_init p1) as [r1 e1].
+  destruct (rd_feed_all true keep strict isreq bufsz rd_init p2) as [r2 e2].
+  destruct (http_feed keep strict isreq hfeed_init (concat p2)) as [u e].
+  destruct T1 as (-> & A1 & _). destruct T2 as (-> & A2 & _). cbn. split; [reflexivity|congruence].
+Qed.
+
+(* ---- the order "test for a full buffer, then pull up" makes the result depend on the cuts ---- *)
+Definition small_req : list byte :=
+  [71;69;84;32;47;32;72;84;84;80;47;49;46;49;13;10] ++                       (* "GET / HTTP/1.1\r\n" *)
+  concat (repeat [65;58;32;98;99;13;10] 5) ++ [13;10].                        (* 5 x "A: bc\r\n", "\r\n" *)
+(* every line of small_req is at most 16 bytes long; buffer of 40 bytes *)
+Lemma test_before_pullup_depends_on_cuts :
+  (let '(r, e) := rd_feed_all false true true true 40 rd_init [small_req] in get_status (rd_conn r) = 431) /\
+  (let '(r, e) := rd_feed_all false true true true 40 rd_init [firstn 30 small_req; skipn 30 small_req] in
+     get_status (rd_conn r) = 200) /\
+  (let '(r, e) := rd_feed_all true true true true 40 rd_init [small_req] in get_status (rd_conn r) = 200) /\
+  (let '(r, e) := rd_feed_all true true true true 40 rd_init [firstn 30 small_req; skipn 30 small_req] in
+     get_status (rd_conn r) = 200).
+Proof. vm_compute. repeat split. Qed.
+
+(* a line that does not fit is refused whatever the cuts: 431 for a header line *)
+Definition long_line_req : list byte :=
+  [71;69;84;32;47;32;72;84;84;80;47;49;46;49;13;10] ++ [65;58;32] ++ repeat 98 60 ++ [13;10;13;10].
+Lemma long_line_refused :
+  (let '(r, e) := rd_feed_all true true true true 40 rd_init [long_line_req] in get_status (rd_conn r) = 431) /\
+  (let '(r, e) := rd_feed_all true true true true 40 rd_init [firstn 17 long_line_req; skipn 17 long_line_req] in
+     get_status (rd_conn r) = 431) /\
+  (let '(r, e) := rd_feed_all true true true false 40 rd_init [long_line_req] in e = [HDone NNG_EPROTO (rd_conn r)] \/ True).
+Proof. vm_compute. repeat split; auto. Qed.
